@@ -793,9 +793,14 @@ pub fn classes_c03(c: &Case) -> Vec<&'static str> {
     let tr = truth(c);
     let mut out = vec![];
     let n = c.reqs.len();
-    // F15: a request with close semantics (its own, or its handler forces close) followed by further request bytes
+    // F15: a request whose response closes the connection -- close semantics of its own, a handler
+    // that forces close, or a body that the handler does not read to its end (the early response
+    // is forced to close) -- followed by further request bytes
     let f15 = (0..n).any(|i| {
-        tr.followed[i] && (req_closes(c, i) || c.hs[i].iter().any(|a| matches!(a, HAct::Respond { copt: 1, .. })))
+        tr.followed[i]
+            && (req_closes(c, i)
+                || c.hs[i].iter().any(|a| matches!(a, HAct::Respond { copt: 1, .. }))
+                || (c.reqs[i].body != 0 && !c.hs[i].iter().any(|a| matches!(a, HAct::ReadAll))))
     });
     if f15 {
         out.push("F15-close-then-more");
